@@ -166,6 +166,11 @@ func (t *labelTracer) trace(v ssa.Value, depth int) []dirty {
 	case *ssa.BinOp:
 		return union(x.X, x.Y)
 	case *ssa.Slice:
+		if b, ok := x.X.Type().Underlying().(*types.Basic); ok && b.Info()&types.IsString != 0 && (x.Low != nil || x.High != nil) {
+			// cutting a string at a byte offset can split a multi-byte character: what comes out need not be valid
+			// UTF-8 even when what went in was
+			return append(union(x.X), dirty{in, "string cut at a byte offset (" + shorten(describe(x), 60) + ")", "a sub-string taken by byte position can end inside a multi-byte character"})
+		}
 		return union(x.X)
 	case *ssa.Extract:
 		if c, ok := x.Tuple.(*ssa.Call); ok {
